@@ -16,6 +16,7 @@ static Plan gen_c09(uint64_t seed, const std::string &tier) {
     w.socks["/run/snoopy-0.sock"] = SockNode(); w.socks["/run/snoopy-0.sock"].capacity = 1000; w.socks["/dev/log"].capacity = 1000;
     w.has_ctty = true;
     if (w.environ_null) { w.environ_null = false; }
+    if (w.stdout_kind == 3) w.stdout_kind = 0;   // closed standard descriptors are explored single-threaded only (the streams are shared by the harness threads)
     w.env.push_back("K1=envvalue");
     CfgSpec s; s.has_format = true;
     // the data source coming last is rotated so that the scheduling point right after it is an output call
@@ -188,7 +189,7 @@ static Reg reg_c17({"C17", gen_c17, oracle_c17, abort_sched, describe_c17});
 static Plan gen_c10(uint64_t seed, const std::string &) {
     uint64_t base = seed / C10_SLOTS; int slot = (int)(seed % C10_SLOTS);
     Rng r(base * 1000003 + 110);
-    Plan p; p.property = "C10"; p.seed = seed; p.world = gen_world(r);
+    Plan p; p.property = "C10"; p.seed = seed; p.world = gen_world(r); if (p.world.stdout_kind == 3) p.world.stdout_kind = 0;
     World &w = p.world; w.socks["/run/snoopy-0.sock"] = SockNode(); w.has_ctty = true;
     static const char *outs[] = {"file:/log/c10.log", "devlog", "socket:/run/snoopy-0.sock", "stderr", "stdout", "devtty", "devnull"};
     CfgSpec s; s.has_format = true; s.format = "T%{snoopy_threads}T %{filename} %{cmdline} %{username}"; s.has_output = true; s.output = outs[base % 7];
